@@ -8,19 +8,22 @@ Last(s)     == s[Len(s)]
 
 RECURSIVE QSumFrom(_, _)
 QSumFrom(s, i) == IF i > Len(s) THEN QZero ELSE QAdd(s[i], QSumFrom(s, i + 1))
-QSum(s) == QSumFrom(s, 1)
+(* TLC keeps [i \in 1..n |-> e] as an unevaluated lambda and re-evaluates it on every Len / index: concatenation with
+   the empty sequence turns it into a concrete tuple once (measured: 0.33 s -> 3 ms per event at N = 20) *)
+Force(s) == <<>> \o s
+QSum(s) == LET t == Force(s) IN QSumFrom(t, 1)
 QSumSq(s) == QSum([i \in 1..Len(s) |-> QSq(s[i])])
 
 RECURSIVE QMinFrom(_, _)
 QMinFrom(s, i) == IF i = Len(s) THEN s[i] ELSE QMin(s[i], QMinFrom(s, i + 1))
-QMinSeq(s) == QMinFrom(s, 1)
+QMinSeq(s) == LET t == Force(s) IN QMinFrom(t, 1)
 RECURSIVE QMaxFrom(_, _)
 QMaxFrom(s, i) == IF i = Len(s) THEN s[i] ELSE QMax(s[i], QMaxFrom(s, i + 1))
-QMaxSeq(s) == QMaxFrom(s, 1)
+QMaxSeq(s) == LET t == Force(s) IN QMaxFrom(t, 1)
 
 RECURSIVE ISumFrom(_, _)
 ISumFrom(s, i) == IF i > Len(s) THEN 0 ELSE s[i] + ISumFrom(s, i + 1)
-ISum(s) == ISumFrom(s, 1)
+ISum(s) == LET t == Force(s) IN ISumFrom(t, 1)
 
 Count(s, P(_)) == ISum([i \in 1..Len(s) |-> IF P(s[i]) THEN 1 ELSE 0])
 
